@@ -107,6 +107,7 @@ def bfgs_history(rnd, M, tier):
     mass.rng = numpy.random.default_rng(3)
     ops, obs, probs = [], [], []
     last_acc = mass.Minv.copy()
+    last_ref = (numpy.array(mass.m, dtype=float).copy(), numpy.array(mass.g, dtype=float).copy())
     n = rnd.randint(3, 14 if tier == "quick" else 40)
     for k in range(n):
         x = rnd.random()
@@ -133,6 +134,7 @@ def bfgs_history(rnd, M, tier):
         elif x < 0.8:
             mass.accept()
             last_acc = mass.Minv.copy()
+            last_ref = (numpy.array(mass.m, dtype=float).copy(), numpy.array(mass.g, dtype=float).copy())
             ops.append("Accept")
         else:
             mass.reject()
@@ -145,12 +147,15 @@ def bfgs_history(rnd, M, tier):
         except numpy.linalg.LinAlgError:
             fac_ok = False
         same = numpy.allclose(mass.Minv, last_acc, rtol=1e-12, atol=1e-14)
+        if ops[-1] == "Reject":
+            # ... the whole state: the reference position / gradient the next update is taken from as well
+            same = same and numpy.array_equal(numpy.array(mass.m, dtype=float), last_ref[0]) and numpy.array_equal(numpy.array(mass.g, dtype=float), last_ref[1])
         obs.append((bool(fac_ok), bool(same) if ops[-1] == "Reject" else True))
         if not fac_ok:
             probs.append(("bfgs-factor-stale", f"after {ops}: generate_momentum uses a factor LTinv that is not the factor of the current metric Minv "
                           "(momenta are not Gibbs-distributed for the kinetic energy in use)"))
         if ops[-1] == "Reject" and not same:
-            probs.append(("bfgs-reject-not-restored", f"after {ops}: rejection did not restore the metric of the last acceptance"))
+            probs.append(("bfgs-reject-not-restored", f"after {ops}: rejection did not restore the state of the last acceptance (metric, reference position and gradient)"))
         sym = numpy.allclose(mass.Minv, mass.Minv.T, rtol=1e-10, atol=1e-12)
         try:
             numpy.linalg.cholesky(mass.Minv)
